@@ -83,23 +83,47 @@ func c06ttl(c *Ctx) {
 		o.Sites += n
 	}
 
-	if f := c.fn(rule, cachePkg, "(cacheNode).SetWithExpireCtx"); f != nil {
-		ps := c.paths(rule, f, px.Config{})
-		exP := paramOfType(f, "time.Duration")
-		c.forall(rule, cachePkg+".(cacheNode).SetWithExpireCtx", "the TTL written is int(math.Ceil(expire.Seconds())) of the requested expiry", f, ps, func(p *px.Path) (bool, string) {
-			for _, e := range p.All(calleeIs("core/stores/redis.(*Redis).SetexCtx")) {
-				d := isCeilSeconds(e.Call.Args[len(e.Call.Args)-1])
-				if d == nil || !isParam(d, exP) {
-					return false, "TTL is not ceil(expire.Seconds()): " + e.Call.Args[len(e.Call.Args)-1].Describe()
-				}
-			}
-			return true, ""
-		})
-	}
 	around := func(s *px.Sym, field string) bool {
 		s = s.Strip(false)
 		return s != nil && s.Kind == px.KCall && s.Call != nil && s.Call.Static != nil && s.Call.Static.Name() == "aroundDuration" &&
 			len(s.Call.Args) == 2 && px.IsFieldLoad(s.Call.Args[1], field, nil)
+	}
+	if f := c.fn(rule, cachePkg, "(cacheNode).SetWithExpireCtx"); f != nil {
+		ps := c.paths(rule, f, px.Config{})
+		exP := paramOfType(f, "time.Duration")
+		c.forall(rule, cachePkg+".(cacheNode).SetWithExpireCtx", "the TTL written is int(math.Ceil(d.Seconds())) where d is the requested expiry on a path that found it positive, or the jittered configured expiry (never a non-positive TTL: the store turns that into a persistent key)", f, ps, func(p *px.Path) (bool, string) {
+			for _, e := range p.All(calleeIs("core/stores/redis.(*Redis).SetexCtx")) {
+				d := isCeilSeconds(e.Call.Args[len(e.Call.Args)-1])
+				if d == nil {
+					return false, "TTL is not ceil(d.Seconds()): " + e.Call.Args[len(e.Call.Args)-1].Describe()
+				}
+				if around(d, "expiry") {
+					continue // the configured expiry, made positive by newOptions
+				}
+				if !isParam(d, exP) {
+					return false, "TTL derives neither from the requested nor from the configured expiry: " + d.Describe()
+				}
+				positive := false
+				for _, b := range p.All(px.KindIs(px.EvBranch)) {
+					if b.Seq > e.Seq {
+						break
+					}
+					cnd := b.Cond.Strip(true)
+					if cnd.Kind != px.KBinOp || !isParam(cnd.X, exP) {
+						continue
+					}
+					if z, ok := constInt(p, cnd.Y); ok && z == 0 {
+						if (cnd.Op == token.GTR && b.Taken) || (cnd.Op == token.LEQ && !b.Taken) {
+							positive = true
+						}
+					}
+				}
+				if !positive {
+					return false, "the requested expiry reaches SetexCtx without having been found positive: SetWithExpire(key, v, 0) (or a negative duration) becomes SET without EX — a persistent key, which the statement excludes (\"every entry written carries a finite TTL … never a persistent key\")"
+				}
+			}
+			return true, ""
+		})
 	}
 	if f := c.fn(rule, cachePkg, "(cacheNode).setCacheWithNotFound"); f != nil {
 		ps := c.paths(rule, f, px.Config{})
